@@ -212,6 +212,12 @@ def C09(tier, seed):
     return res
 def C11(tier, seed):
     res = _algebra("C11", tier, seed, [("equals", 40000, 600000), ("addbase", 8000, 100000), ("normalize", 6000, 100000)], "every value produced by resolution/normalization is in the structure that parsing its text yields (so equal <=> same text)")
+    # equality over histories: pairs of URIs that sessions of parse / resolve / create-reference / normalize / make-owner steps produced
+    out = os.path.join(vlib.RUNROOT, "run", "C11")
+    h = vlib.run_harness(vlib.build("asan"), ["session", "--mode", "random", "--n", "6000" if tier == "thorough" else "350", "--seed", str(seed + 11), "--tier", tier], out, "c11session", timeout=3000)
+    res.violations += harness_crash_violations(h, "C11")
+    res.add_stats(vlib.merge_stats(h["stats"]))
+    res.violations += validate_stream(res, "Trace_Session", out, "c11session", "C11")
     res.coverage["rule"] = ("all ordered pairs of real URI objects from a pool of texts differing in exactly one component (incl. absent vs empty, '/a' vs 'a' with and without scheme, IP hosts equal by value / differing in the low bytes) plus objects produced by resolution and normalization; "
         "uriEqualsUri both ways against Equal of the projections and against equality of the real recomposed texts; arguments byte-snapshotted; resolution/normalization outputs must have the parsed structure. non-trivial = the two objects differ by origin; distinct by pair")
     return res
